@@ -411,13 +411,16 @@ fn gen_key_set(rng: &mut StdRng, shape: usize) -> (Vec<Vec<u8>>, &'static str) {
     (keys, name)
 }
 
-fn policy_probe(bits: usize, keys: &[Vec<u8>], shape: &str) -> Value {
+/// `rbits`: bits-per-key setting of the READING policy (the probe count is stored in the filter,
+/// so a filter written under one setting must stay readable under any other)
+fn policy_probe(bits: usize, rbits: usize, keys: &[Vec<u8>], shape: &str) -> Value {
     let r = std::panic::catch_unwind(|| {
         let p = BloomFilterPolicy::new(bits);
+        let reader = BloomFilterPolicy::new(rbits);
         let f = p.create_filter(keys);
         let (mut missing, mut errs, mut first) = (0usize, 0usize, 0usize);
         for (i, k) in keys.iter().enumerate() {
-            match p.key_may_match(k, &f) {
+            match reader.key_may_match(k, &f) {
                 Ok(true) => {}
                 Ok(false) => {
                     missing += 1;
@@ -489,7 +492,14 @@ pub fn run_filters(cfg: &FilterCfg, run_no: u64) -> (Vec<Value>, usize) {
     for bits in 1..=64usize {
         for j in 0..cfg.sets {
             let (ks, shape) = gen_key_set(&mut rng, j + bits);
-            lines.push(policy_probe(bits, &ks, shape));
+            lines.push(policy_probe(bits, bits, &ks, shape));
+            // the same filter read under other settings (fewer and more probes than it was
+            // written with)
+            for rbits in [1usize, 10, 64, 1 + (bits * 7 + j) % 64] {
+                if rbits != bits {
+                    lines.push(policy_probe(bits, rbits, &ks, shape));
+                }
+            }
         }
     }
     // (c)
